@@ -167,7 +167,17 @@ def run(ctx):
     # value matcher: the static method the top matcher calls with (filter value, recorded value)
     callees = [n.func.attr for n in ast.walk(top.node) if isinstance(n, ast.Call) and isinstance(n.func, ast.Attribute) and
                isinstance(n.func.value, ast.Name) and n.func.value.id == tc.name]
-    vm = tc.lookup(callees[0]) if callees else None
+    def _mentions_operator(f_, seen=()):
+        if f_ is None or f_ in seen:
+            return False
+        if any(isinstance(k, ast.Constant) and k.value == 'operator' for k in ast.walk(f_.node)):
+            return True
+        return any(_mentions_operator(tc.lookup(x.func.attr), tuple(seen) + (f_,)) for x in ast.walk(f_.node)
+                   if isinstance(x, ast.Call) and isinstance(x.func, ast.Attribute) and isinstance(x.func.value, ast.Name) and x.func.value.id == tc.name)
+    # (the callee that decides one criterion is the one from which the operator form is reachable; other helpers of the top matcher are
+    # looked at by the recorded-value rule below)
+    vm_c = [c_ for c_ in callees if tc.lookup(c_) is not None and _mentions_operator(tc.lookup(c_))] or callees
+    vm = tc.lookup(vm_c[0]) if vm_c else None
     if vm is None:
         raise AnalysisError('anchor-lost role=value matcher')
 
@@ -226,6 +236,27 @@ def run(ctx):
     if not okc:
         res.add(Finding('C14', 'C14.b', 'R-DECISION', top.file, top.qualname, top.node.lineno, 'top-level conjunction', why))
 
+    # the recorded value a criterion is judged against is the metadata entry under that criterion's key, as given (`metadata.get(k)` /
+    # `metadata[k]` guarded by `k in metadata`): the documented filter has no key syntax of its own
+    from ..loader import expand_locals as _xl14
+    okk, whyk = False, 'no call of the value matcher inside the loop over the filter'
+    for lp_ in [n for n in walk_own(top.node) if isinstance(n, (ast.For, ast.GeneratorExp, ast.ListComp))]:
+        tv_ = [x.id for g_ in (lp_.generators if not isinstance(lp_, ast.For) else [lp_]) for x in ast.walk(g_.target) if isinstance(x, ast.Name)]
+        for c_ in [x for x in ast.walk(lp_) if isinstance(x, ast.Call) and isinstance(x.func, ast.Attribute) and x.func.attr == vm.name]:
+            if len(c_.args) < 2:
+                continue
+            rv_e = _xl14(top.node, c_.args[1])
+            meta_p = top.params[-1]
+            direct = (isinstance(rv_e, ast.Call) and isinstance(rv_e.func, ast.Attribute) and rv_e.func.attr == 'get' and isinstance(rv_e.func.value, ast.Name) and
+                      rv_e.func.value.id == meta_p and len(rv_e.args) in (1, 2) and isinstance(rv_e.args[0], ast.Name) and rv_e.args[0].id in tv_ and
+                      (len(rv_e.args) == 1 or (isinstance(rv_e.args[1], ast.Constant) and rv_e.args[1].value is None))) or \
+                     (isinstance(rv_e, ast.Subscript) and isinstance(rv_e.value, ast.Name) and rv_e.value.id == meta_p and isinstance(rv_e.slice, ast.Name) and rv_e.slice.id in tv_)
+            okk, whyk = direct, 'recorded value handed to the value matcher: `%s`' % norm(rv_e)[:80]
+    cb.instance('each criterion is judged against the metadata entry under its own key', top.qualname, okk, detail=whyk)
+    if not okk:
+        res.add(Finding('C14', 'C14.b', 'R-DECISION', top.file, top.qualname, top.node.lineno, whyk[:100],
+                        'the value a criterion is compared with is not `metadata.get(key)` for the criterion\'s own key (%s): keys are reinterpreted, so a '
+                        'recording whose metadata has exactly that key is no longer selected (or another entry is compared instead)' % whyk))
     # ---------------- C14.b value matcher decision table
     dv = small.analyse(repo, excm, vm, policy=pol, domain=MatcherDomain)
     cb.evaluations += dv.visited_pairs
